@@ -1,4 +1,5 @@
 import LyModel.Props.C09
+import LyModel.Props.C09Compiled
 #print axioms LyModel.Props.C09.failed_op_restores_partial
 #print axioms LyModel.Props.C09.failed_op_restores_fails
 #print axioms LyModel.Props.C09.failed_implement_keeps_features
@@ -17,3 +18,8 @@ import LyModel.Props.C09
 #print axioms LyModel.Props.C09.nested_failure_reverted
 #print axioms LyModel.Props.C09.amend_arrays_restored
 #print axioms LyModel.Props.C09.stale_compiled_after_failed_compile
+#print axioms LyModel.Props.C09.failed_op_restores_fixed
+#print axioms LyModel.Props.C09.compiled_restored_after_failed_compile_fixed
+#print axioms LyModel.Props.C09.failed_op_restores_cores
+#print axioms LyModel.Props.C09.descOf_congr
+#print axioms LyModel.Props.C09.compiled_schema_restored_of_fresh
